@@ -527,21 +527,34 @@ pub fn exec(case: &serde_json::Value) -> Result<Option<Violation>, String> {
         return exec_endurance(case);
     }
     let case: Case = serde_json::from_value(case.clone()).map_err(|e| format!("bad C12 case: {e}"))?;
-    if let Some(p) = &case.prelude {
-        // the earlier failing write on this thread; its own verdict is not this case's
-        let mut p = (**p).clone();
-        p.prelude = None;
-        let _ = exec(&serde_json::to_value(&p).unwrap())?;
-    }
-    let item = corpus::build_spec(case.corpus_idx, case.spec.clone());
-    let comp = components(&item)
-        .into_iter()
-        .find(|(n, _)| *n == case.component)
-        .ok_or_else(|| format!("component {} not found", case.component))?
-        .1;
-    let (cb, nbits) = on_fresh_thread(|| clean_bits(&comp));
-    let clean = BitModel::from_bytes(&cb, nbits);
+    // Everything that is built (corpus items, components, clean references) is built BEFORE the first write
+    // under test: building serialises frames on this thread, and nothing may happen between the earlier
+    // failing write and the case that did not happen between them in the sweep.
+    let prepare = |c: &Case| -> Result<(Comp, BitModel, Vec<u8>), String> {
+        let item = corpus::build_spec(c.corpus_idx, c.spec.clone());
+        let comp = components(&item)
+            .into_iter()
+            .find(|(n, _)| *n == c.component)
+            .ok_or_else(|| format!("component {} not found", c.component))?
+            .1;
+        let (cb, nbits) = on_fresh_thread(|| clean_bits(&comp));
+        Ok((comp, BitModel::from_bytes(&cb, nbits), cb))
+    };
+    let pre = match &case.prelude {
+        Some(p) => {
+            let mut p = (**p).clone();
+            p.prelude = None;
+            let x = prepare(&p)?;
+            Some((p, x))
+        }
+        None => None,
+    };
+    let (comp, clean, cb) = prepare(&case)?;
     let mut ops = 0;
+    if let Some((p, (pcomp, pclean, pcb))) = &pre {
+        // the earlier failing write on this thread; its own verdict is not this case's
+        let _ = exec_case(pcomp, p, pclean, pcb, &mut ops);
+    }
     Ok(exec_case(&comp, &case, &clean, &cb, &mut ops))
 }
 
